@@ -3,6 +3,7 @@ import hashlib
 import json
 import os
 import resource
+import time
 
 import vlib
 
@@ -210,6 +211,61 @@ def tracker_states(c):
     return cls, pre + [bytes.fromhex(m["id"]) for m in marks]
 
 
+def gen_dialog(rng, n):
+    """two FrameStreams of one tunnel on one connection that stays OPEN: sequential scripts of calls on either end.
+    Reads are only generated where the real Read cannot block on a correct tree (bytes available / end marker sent)."""
+    out = []
+
+    def fixed(first, second, reader_k):
+        # X writes and ends its direction (first); Y reads that end-of-stream, answers and ends with `second`; X reads to the end
+        for x in (0, 1):
+            y = 1 - x
+            st = [{"who": x, "k": "w", "data": rand_bytes(rng, rng.choice([1, 300, 21000])).hex()}, {"who": x, "k": first}]
+            if reader_k == "rn+ra":
+                st.append({"who": y, "k": "rn", "n": 1, "cap": 64})
+            big = len(st[0]["data"]) > 6000      # byte-sized buffers on large payloads are quadratic in the list model
+            st.append({"who": y, "k": "ra", "cap": rng.choice([512, 32768] if big else [1, 64, 32768])})
+            for _ in range(rng.choice([0, 1, 3])):
+                st.append({"who": y, "k": "w", "data": rand_bytes(rng, rng.choice([1, 4200, 21000])).hex()})
+            st += [{"who": y, "k": second}, {"who": x, "k": "ra", "cap": rng.choice([512, 4096, 32768])}]
+            out.append({"mode": "dialog", "reader": hx(rand_id_string(rng)), "dialog": st})
+
+    for first in ("cw", "c"):
+        for second in ("c", "cw"):
+            for rk in ("ra", "rn+ra"):
+                fixed(first, second, rk)
+    for _ in range(n):
+        sent, taken, closed = [0, 0], [0, 0], [False, False]
+        st = []
+        for _ in range(rng.choice([3, 6, 10, 16])):
+            x = rng.randrange(2)
+            y = 1 - x
+            avail = sent[y] - taken[x]
+            k = rng.random()
+            if k < 0.4 and (not closed[x] or rng.random() < 0.2) and sent[x] - taken[y] < 60000:
+                ln = rng.choice([1, 5, 300, 5000, 21000])
+                st.append({"who": x, "k": "w", "data": rand_bytes(rng, ln).hex()})
+                if not closed[x]:
+                    sent[x] += ln
+            elif k < 0.55 and not closed[x]:
+                st.append({"who": x, "k": rng.choice(["cw", "c"])})
+                closed[x] = True
+            elif k < 0.8 and avail > 0:
+                nn = rng.randrange(1, avail + 1)
+                st.append({"who": x, "k": "rn", "n": nn, "cap": rng.choice([1, 3, 64, 4096, 32768] if nn < 3000 else [4096, 32768])})
+                taken[x] += nn
+            elif closed[y]:
+                st.append({"who": x, "k": "ra", "cap": rng.choice([1, 64, 4096, 32768]) if avail < 3000 else 4096})
+                taken[x] = sent[y]
+        for x in (0, 1):
+            if not closed[x]:
+                st.append({"who": x, "k": rng.choice(["cw", "c"])})
+        for x in rng.sample([0, 1], 2):
+            st.append({"who": x, "k": "ra", "cap": 4096})
+        out.append({"mode": "dialog", "reader": hx(rand_id_string(rng)), "dialog": st})
+    return out
+
+
 def gen_stream_big(rng, thorough):
     out = []
     sizes = [MAXF - 1, MAXF, MAXF + 1, 2 * MAXF - 1, 2 * MAXF, 2 * MAXF + 1, 200000]
@@ -411,6 +467,8 @@ def resolve_ids(binary, cases):
     16 wire bytes of the raw frames that were generated relative to the reader's id"""
     strs = set()
     for c in cases:
+        if c["mode"] == "dialog":
+            strs.add(c["reader"])
         if c["mode"] == "stream":
             strs.add(c["reader"])
             strs.update(c["writers"])
@@ -421,6 +479,8 @@ def resolve_ids(binary, cases):
         outs = vlib.run_harness(binary, [{"mode": "tid", "strs": [x]} for x in strs], timeout=600)
         idmap = {x: o["ids"][0] for x, o in zip(strs, outs)}
     for c in cases:
+        if c["mode"] == "dialog":
+            c["reader_wid"] = idmap[c["reader"]]
         if c["mode"] == "stream":
             c["reader_wid"] = idmap[c["reader"]]
             c["writer_wids"] = [idmap[w] for w in c["writers"]]
@@ -460,8 +520,18 @@ def case_values(c, o):
             fr = [[[hb(f["tid"]), f["ty"], hb(f["data"])] for f in c["frames"]]]
         obs = [[1, hb(x["tid"]), x["ty"], hb(x["data"]), x["consumed"]] if x["ok"] else [0, x["eof"], x["consumed"]] for x in o["obs"]]
         return [[0, fr, hb(o["wire"]), list(c["cuts"]), obs]]
+    if o.get("skipped"):
+        return []
     if c["mode"] in ("conc", "fwd", "duplex", "halfclose"):
         return []
+    if c["mode"] == "dialog":
+        kinds = {"w": 0, "cw": 1, "c": 2, "rn": 3, "ra": 4}
+        steps = [[st["who"], kinds[st["k"]], hb(st.get("data", "")) if st["k"] == "w" else st.get("n", 0), max(1, st.get("cap", 1))]
+                 for st in c["dialog"]]
+        terms = {"ok": 0, "eof": 1, "blocked": 2, "err": 3}
+        obs = [[hb(x["data"]), terms.get(x["term"], 3)] if st["k"] in ("rn", "ra") else [x["n"], x["e"]]
+               for st, x in zip(c["dialog"], o.get("steps") or [])]
+        return [[5, hb(o_wid(c)), steps, obs]]
     if c["mode"] == "gated":
         if "up_final" not in o and not o["prop_ok"]:
             return []   # the replay hung: already reported by the predicate
@@ -496,6 +566,10 @@ def case_values(c, o):
     return [[2, hb(s), hb(i), hb(b)] for s, i, b in zip(c["strs"], o["ids"], o["backs"])]
 
 
+def o_wid(c):
+    return c["reader_wid"]
+
+
 def short(c):
     """a readable copy of a case for evidence/replay descriptions"""
     def cut(v):
@@ -511,15 +585,28 @@ def short(c):
 
 def shrink(binary, case, key):
     """greedy: drop ops / frames / cuts, halve payloads, while the Go-side predicate fails with the same key"""
+    t_end = time.time() + 40          # a shrink never takes longer than this, however slow (or hanging) each attempt is
+
     def fails(c):
+        if time.time() > t_end:
+            return False
         try:
-            o = vlib.run_harness(binary, [c], timeout=120)[0]
+            o = vlib.run_harness(binary, [c], timeout=30, env={"VERIF_C10_FASTHANG": "1"})[0]
             return (not o["prop_ok"]) and o.get("prop_key") == key
         except vlib.Broken:
             return False
     cur = json.loads(json.dumps(case))
     for _ in range(30):
         changed = False
+        if time.time() > t_end:
+            break
+        items = cur.get("dialog") or []
+        for i in range(len(items)):
+            if len(items) > 1:
+                t = dict(cur, dialog=items[:i] + items[i + 1:])
+                if fails(t):
+                    cur, changed = t, True
+                    break
         for field in ("ops", "frames"):
             items = cur.get(field) or []
             for i in range(len(items)):
@@ -612,6 +699,7 @@ def run(ctx, only_cases=None):
         cases += gen_enc(rng, 1500 if thorough else 150, big=True)
         cases += gen_stream(rng, 3000 if thorough else 300, collide_every=25)
         cases += gen_stream_tracker(rng, 600 if thorough else 80)
+        cases += gen_dialog(rng, 1500 if thorough else 150)
         cases += gen_stream_hostile(rng, 600 if thorough else 60)
         cases += gen_stream_big(rng, thorough)
         cases += gen_tid(rng, 400 if thorough else 40)
@@ -624,17 +712,21 @@ def run(ctx, only_cases=None):
         cases += gen_halfclose(rng, thorough)
         cases += gen_stream_hostile_types(rng)
     resolve_ids(binary, cases)
-    outs = vlib.run_harness(binary, cases, timeout=1500)
+    # the harness bounds every wait and skips the rest of an invocation after 90 s spent in hanging cases, so these
+    # timeouts are only a last resort; they keep the whole quick check within a few minutes whatever the tree does
+    h_timeout = 1500 if thorough else 420
+    outs = vlib.run_harness(binary, cases, timeout=h_timeout)
     if only_cases is None:
         wires = [o["wire"] for c, o in zip(cases, outs) if c["mode"] in ("enc", "stream") and 0 < o["wire_len"] < 3000]
         rng.shuffle(wires)
         raw = gen_dec_all_types(rng) + gen_dec(rng, wires[:(2500 if thorough else 150)], 20 if thorough else 5)
-        outs += vlib.run_harness(binary, raw, timeout=1500)
+        outs += vlib.run_harness(binary, raw, timeout=h_timeout)
         cases += raw
 
     # (iii) the property predicate evaluated on the implementation's own outputs
     nfail = 0
     reported = {}
+    n_skipped = sum(1 for o in outs if o.get("skipped"))
     for c, o in zip(cases, outs):
         if o["prop_ok"]:
             continue
@@ -647,7 +739,7 @@ def run(ctx, only_cases=None):
             ctx.violation(key, o["prop_msg"], {"case": short(c)})
             continue
         small = shrink(binary, c, key)
-        so = vlib.run_harness(binary, [small], timeout=120)[0]
+        so = vlib.run_harness(binary, [small], timeout=60, env={"VERIF_C10_FASTHANG": "1"})[0]
         ctx.violation(key, "real crossnode code (%s mode): %s" % (c["mode"], so.get("prop_msg") or o["prop_msg"]),
                       {"case": small, "observed": short(so)})
 
@@ -735,6 +827,13 @@ def run(ctx, only_cases=None):
             dist["forwarder_gated_schedules"] = dist.get("forwarder_gated_schedules", 0) + 1
             if c["up"] and c["down"] and 0 in c["sched"] and 1 in c["sched"]:
                 nontrivial.add(h)
+        elif c["mode"] == "dialog":
+            dist["dialog_scripts"] = dist.get("dialog_scripts", 0) + 1
+            ks = [st["k"] for st in c["dialog"]]
+            # the peer's half-close is read, then this end writes and closes
+            if "ra" in ks and any(k in ("c", "cw") for k in ks[ks.index("ra"):]):
+                dist["dialog_close_after_reading_peer_eof"] = dist.get("dialog_close_after_reading_peer_eof", 0) + 1
+                nontrivial.add(h)
         elif c["mode"] == "halfclose":
             k = "forwarder_half_close_%s_shape_%s" % (c["order"].replace("-", "_"), c["shape"])
             dist[k] = dist.get(k, 0) + 1
@@ -778,6 +877,7 @@ def run(ctx, only_cases=None):
         "distinct_cases": len(distinct),
         "model_vs_impl_values": len(values), "model_vs_impl_mismatches": len(mism),
         "impl_property_failures": nfail, "impl_property_failures_by_key": reported,
+        "cases_skipped_after_hang_budget": n_skipped,
         "max_alloc_delta_bytes_per_ReadFrameFromReader_call": max_alloc,
         "type_bytes_seen_with_oversize_length_by_the_decoder": len(oversize_types),
         "input_distribution": dist, "generated_file_changed": gen_changed,
